@@ -201,7 +201,15 @@ def main(argv=None):
                 failed.setdefault((o['name'], r['mode']), []).append((r, o))
             else:
                 unknowns.append((r, o))
+    bounded_extra = {}
     for o in extra_obs:
+        if o.get('kind') == 'B':
+            # bounded stand-in: never counted as an obligation / as proved
+            bounded_extra[o['name']] = dict(evaluations=o.get('evaluations', 0), failures=0 if o['status'] == 'discharged' else 1,
+                                            bound=o.get('bound', ''))
+            if o['status'] == 'failed':
+                failed.setdefault((o['name'], o.get('mode', 'assert')), []).append((None, o))
+            continue
         n_ob += 1
         b = by_backend.setdefault(o.get('solver', 'enum'), dict(count=0, secs=0.0))
         b['count'] += 1
@@ -258,6 +266,28 @@ def main(argv=None):
             if ok:
                 reproduced = fn
                 break
+        if not reproduced and items[0][0] is not None:
+            # no direct replay (e.g. an inductive-step obligation whose model talks about ghost state):
+            # search the real code with the unit's contract on random inputs (bounded stand-in)
+            r0 = items[0][0]
+            b = bounded_run(r0['unit_spec'], mode == 'O', seed, 4000)
+            for fl in b.get('failures', [])[:1]:
+                fn = os.path.join(rdir, "%s_b.json" % hashlib.sha1(("%s|%s" % (name, mode)).encode()).hexdigest()[:12])
+                rec = dict(property=prop, obligation=None, failed_obligation=name, mode=mode, kind='unit',
+                           unit=r0['unit_spec'], function=r0['target'], values=fl['values'], shard=0,
+                           native_contract_failures=fl['obligations'], goal=items[0][1].get('goal'),
+                           solver_output=items[0][1].get('model_text'),
+                           found_by="bounded search of the real code with the same contract, after the verifier "
+                                    "refuted the named obligation")
+                with open(fn, 'w') as f:
+                    json.dump(rec, f, indent=1, default=str)
+                ok, info = native_replay(fn, mode == 'O')
+                rec['native_result'] = info
+                rec['reproduced'] = bool(ok)
+                with open(fn, 'w') as f:
+                    json.dump(rec, f, indent=1, default=str)
+                if ok:
+                    reproduced = fn
         if reproduced:
             violations.append("VIOLATION property=%s replay=%s obligation=%r mode=%s" % (prop, reproduced, name, mode))
         else:
@@ -272,7 +302,7 @@ def main(argv=None):
                               % (prop, chosen, name, mode))
 
     # ---- undecided units: bounded stand-in on the real code
-    bounded = {}
+    bounded = dict(bounded_extra)
     und_notes = []
     need_bounded = list(undecided_units)
     if tier == 'thorough':
